@@ -1,37 +1,316 @@
-// Generates ALL_KEYS (every variant of pc_keyboard::KeyCode, in declaration order) by parsing
-// `pub enum KeyCode { … }` in the tree under test, so table-independent checks automatically
-// cover keys added later. No transmute anywhere.
-use std::{env, fs, path::PathBuf};
+// Generates ALL_KEYS (every unit variant of pc_keyboard::KeyCode, in declaration order) from the
+// tree under test, so table-independent checks automatically cover keys added later.
+// No transmute anywhere.
+//
+// The source is lexed, not pattern-matched: comments (line, doc, nested block), string and char
+// literals are blanked before any brace is looked at, every `.rs` file under `src/` (and the
+// `[lib] path` of Cargo.toml, if any) is searched for `enum KeyCode`, attributes are skipped
+// bracket-aware, `#[cfg(..)]`-gated variants and variants carrying data are left out (the harness
+// could not name or construct them), and discriminant expressions are ignored.
+use std::{env, fs, path::Path, path::PathBuf};
+
+/// Replace comments and the contents of string / char literals by spaces (newlines kept).
+fn blank(src: &str) -> String {
+    let b: Vec<char> = src.chars().collect();
+    let mut out = String::with_capacity(src.len());
+    let mut i = 0;
+    let n = b.len();
+    let keep_nl = |c: char| if c == '\n' { '\n' } else { ' ' };
+    while i < n {
+        let c = b[i];
+        if c == '/' && i + 1 < n && b[i + 1] == '/' {
+            while i < n && b[i] != '\n' {
+                out.push(' ');
+                i += 1;
+            }
+        } else if c == '/' && i + 1 < n && b[i + 1] == '*' {
+            let mut depth = 0usize;
+            loop {
+                if i + 1 < n && b[i] == '/' && b[i + 1] == '*' {
+                    depth += 1;
+                    out.push_str("  ");
+                    i += 2;
+                } else if i + 1 < n && b[i] == '*' && b[i + 1] == '/' {
+                    depth -= 1;
+                    out.push_str("  ");
+                    i += 2;
+                    if depth == 0 {
+                        break;
+                    }
+                } else if i < n {
+                    out.push(keep_nl(b[i]));
+                    i += 1;
+                } else {
+                    break;
+                }
+            }
+        } else if c == 'r' && i + 1 < n && (b[i + 1] == '"' || b[i + 1] == '#') && (i == 0 || !(b[i - 1].is_alphanumeric() || b[i - 1] == '_')) {
+            // raw string r"…", r#"…"#
+            let mut j = i + 1;
+            let mut hashes = 0;
+            while j < n && b[j] == '#' {
+                hashes += 1;
+                j += 1;
+            }
+            if j < n && b[j] == '"' {
+                out.push('r');
+                for _ in 0..hashes {
+                    out.push(' ');
+                }
+                out.push('"');
+                j += 1;
+                loop {
+                    if j >= n {
+                        break;
+                    }
+                    if b[j] == '"' {
+                        let mut k = 0;
+                        while k < hashes && j + 1 + k < n && b[j + 1 + k] == '#' {
+                            k += 1;
+                        }
+                        if k == hashes {
+                            out.push('"');
+                            for _ in 0..hashes {
+                                out.push(' ');
+                            }
+                            j += 1 + hashes;
+                            break;
+                        }
+                    }
+                    out.push(keep_nl(b[j]));
+                    j += 1;
+                }
+                i = j;
+            } else {
+                out.push(c);
+                i += 1;
+            }
+        } else if c == '"' {
+            out.push('"');
+            i += 1;
+            while i < n && b[i] != '"' {
+                if b[i] == '\\' && i + 1 < n {
+                    out.push(' ');
+                    out.push(keep_nl(b[i + 1]));
+                    i += 2;
+                } else {
+                    out.push(keep_nl(b[i]));
+                    i += 1;
+                }
+            }
+            if i < n {
+                out.push('"');
+                i += 1;
+            }
+        } else if c == '\'' {
+            // char literal ('x', '\n', '\u{1F600}') or lifetime ('a)
+            if i + 2 < n && b[i + 1] != '\\' && b[i + 2] == '\'' {
+                out.push_str("' '");
+                i += 3;
+            } else if i + 1 < n && b[i + 1] == '\\' {
+                let mut j = i + 2;
+                while j < n && b[j] != '\'' && j < i + 12 {
+                    j += 1;
+                }
+                if j < n && b[j] == '\'' {
+                    for _ in i..=j {
+                        out.push(' ');
+                    }
+                    i = j + 1;
+                } else {
+                    out.push(c);
+                    i += 1;
+                }
+            } else {
+                out.push(c);
+                i += 1;
+            }
+        } else {
+            out.push(c);
+            i += 1;
+        }
+    }
+    out
+}
+
+fn is_ident(c: char) -> bool {
+    c.is_alphanumeric() || c == '_'
+}
+
+/// Body (between the braces) of `enum KeyCode { … }` in blanked source, if present.
+fn enum_body(src: &str) -> Option<String> {
+    let chars: Vec<char> = src.chars().collect();
+    let text: String = chars.iter().collect();
+    let mut from = 0;
+    while let Some(p) = text[from..].find("enum") {
+        let at = from + p;
+        from = at + 4;
+        let before_ok = at == 0 || !is_ident(text[..at].chars().last().unwrap());
+        let rest = &text[at + 4..];
+        let after = rest.trim_start();
+        if !before_ok || after.len() == rest.len() || !after.starts_with("KeyCode") {
+            continue;
+        }
+        let tail = &after["KeyCode".len()..];
+        if tail.chars().next().map(is_ident).unwrap_or(true) {
+            continue; // KeyCodeXxx
+        }
+        let open = tail.find('{')?;
+        if tail[..open].contains(';') {
+            continue;
+        }
+        let mut depth = 0i32;
+        let mut body = String::new();
+        for c in tail[open..].chars() {
+            match c {
+                '{' => {
+                    depth += 1;
+                    if depth == 1 {
+                        continue;
+                    }
+                }
+                '}' => {
+                    depth -= 1;
+                    if depth == 0 {
+                        return Some(body);
+                    }
+                }
+                _ => {}
+            }
+            body.push(c);
+        }
+        return None;
+    }
+    None
+}
+
+/// Split at commas that are outside every bracket.
+fn split_top(body: &str) -> Vec<String> {
+    let mut v = Vec::new();
+    let mut cur = String::new();
+    let mut depth = 0i32;
+    for c in body.chars() {
+        match c {
+            '(' | '[' | '{' => depth += 1,
+            ')' | ']' | '}' => depth -= 1,
+            ',' if depth == 0 => {
+                v.push(std::mem::take(&mut cur));
+                continue;
+            }
+            _ => {}
+        }
+        cur.push(c);
+    }
+    if !cur.trim().is_empty() {
+        v.push(cur);
+    }
+    v
+}
+
+/// (variant name, cfg-gated?, carries data?) of one enum item.
+fn variant(item: &str) -> Option<(String, bool, bool)> {
+    let mut s = item.trim_start();
+    let mut gated = false;
+    while s.starts_with('#') {
+        let open = s.find('[')?;
+        let mut depth = 0i32;
+        let mut end = None;
+        for (i, c) in s[open..].char_indices() {
+            match c {
+                '[' => depth += 1,
+                ']' => {
+                    depth -= 1;
+                    if depth == 0 {
+                        end = Some(open + i);
+                        break;
+                    }
+                }
+                _ => {}
+            }
+        }
+        let end = end?;
+        let attr = s[open + 1..end].trim();
+        if attr.starts_with("cfg") && !attr.starts_with("cfg_attr") {
+            gated = true;
+        }
+        s = s[end + 1..].trim_start();
+    }
+    let name: String = s.chars().take_while(|c| is_ident(*c)).collect();
+    if name.is_empty() || !name.chars().next().unwrap().is_alphabetic() {
+        return None;
+    }
+    let rest = s[name.len()..].trim_start();
+    let data = rest.starts_with('(') || rest.starts_with('{');
+    Some((name, gated, data))
+}
+
+fn rs_files(dir: &Path, out: &mut Vec<PathBuf>) {
+    if let Ok(rd) = fs::read_dir(dir) {
+        let mut entries: Vec<PathBuf> = rd.filter_map(|e| e.ok().map(|e| e.path())).collect();
+        entries.sort();
+        for p in entries {
+            if p.is_dir() {
+                rs_files(&p, out);
+            } else if p.extension().map(|e| e == "rs").unwrap_or(false) {
+                out.push(p);
+            }
+        }
+    }
+}
 
 fn main() {
     println!("cargo:rerun-if-env-changed=PCKB_REPO");
     let repo = env::var("PCKB_REPO").unwrap_or_else(|_| "/repo".to_string());
-    let lib = PathBuf::from(&repo).join("src/lib.rs");
-    println!("cargo:rerun-if-changed={}", lib.display());
-    let src = fs::read_to_string(&lib).expect("read src/lib.rs of the tree under test");
-    let start = src.find("pub enum KeyCode").expect("enum KeyCode not found");
-    let body_start = start + src[start..].find('{').unwrap() + 1;
-    // the enum has no nested braces
-    let body_end = body_start + src[body_start..].find('}').unwrap();
-    let mut names = Vec::new();
-    for line in src[body_start..body_end].lines() {
-        let t = line.trim();
-        if t.is_empty() || t.starts_with("//") || t.starts_with("#[") {
-            continue;
-        }
-        // `Name,` or `Name = 3,`
-        let name: String = t.chars().take_while(|c| c.is_alphanumeric() || *c == '_').collect();
-        if !name.is_empty() && name.chars().next().unwrap().is_uppercase() {
-            names.push(name);
+    let root = PathBuf::from(&repo);
+    println!("cargo:rerun-if-changed={}", root.join("src").display());
+    println!("cargo:rerun-if-changed={}", root.join("Cargo.toml").display());
+    let mut files = vec![root.join("src/lib.rs")];
+    // `[lib] path = "…"`
+    if let Ok(toml) = fs::read_to_string(root.join("Cargo.toml")) {
+        let mut in_lib = false;
+        for line in toml.lines() {
+            let t = line.trim();
+            if t.starts_with('[') {
+                in_lib = t == "[lib]";
+            } else if in_lib && t.starts_with("path") {
+                if let Some(q) = t.split('"').nth(1) {
+                    files.insert(0, root.join(q));
+                }
+            }
         }
     }
-    assert!(names.len() >= 100, "KeyCode parse produced only {} variants", names.len());
+    rs_files(&root.join("src"), &mut files);
+    let mut names: Vec<String> = Vec::new();
+    let mut skipped: Vec<String> = Vec::new();
+    let mut found_in = None;
+    for f in &files {
+        let Ok(src) = fs::read_to_string(f) else { continue };
+        println!("cargo:rerun-if-changed={}", f.display());
+        let blanked = blank(&src);
+        if let Some(body) = enum_body(&blanked) {
+            for item in split_top(&body) {
+                if let Some((name, gated, data)) = variant(&item) {
+                    if gated || data {
+                        skipped.push(name);
+                    } else {
+                        names.push(name);
+                    }
+                }
+            }
+            found_in = Some(f.clone());
+            break;
+        }
+    }
+    let found_in = found_in.unwrap_or_else(|| panic!("`enum KeyCode {{ … }}` not found in any .rs file under {}/src", repo));
+    assert!(!names.is_empty(), "KeyCode in {} has no unit variants?", found_in.display());
     let mut out = String::new();
     out.push_str("pub const ALL_KEYS: &[pc_keyboard::KeyCode] = &[\n");
     for n in &names {
         out.push_str(&format!("    pc_keyboard::KeyCode::{},\n", n));
     }
     out.push_str("];\n");
+    out.push_str(&format!("pub const KEYS_SKIPPED: &[&str] = &{:?};\n", skipped));
+    out.push_str(&format!("pub const KEYS_SOURCE: &str = {:?};\n", found_in.display().to_string()));
     out.push_str(&format!("pub const TREE_UNDER_TEST: &str = {:?};\n", repo));
     let dst = PathBuf::from(env::var("OUT_DIR").unwrap()).join("all_keys.rs");
     fs::write(dst, out).unwrap();
